@@ -47,6 +47,10 @@ func (sc *SchemaCache) Schema(src protoreflect.MessageDescriptor) (RootSchema, e
 		placeholder.To, err = schemaPackage.buildObjectSchema(src, msgOptions.GetObject())
 	}
 	if err != nil {
+		// Do not leave the half-built entry behind: its 'To' would hold a typed
+		// nil, which a later lookup would hand out as a schema without error.
+		placeholder.To = nil
+		delete(schemaPackage.Schemas, nameInPackage)
 		return nil, err
 	}
 	if placeholder.To.FullName() != placeholder.FullName() {
